@@ -132,6 +132,9 @@ def _case(draw, knob):
     elif inmemory and kwarg and doc_kwarg and len(documented) < len(allp):
         kwarg, doc_kwarg = None, False
     extra = {}
+    if knob is None and kind == "class_init" and not inmemory and args and draw(st.integers(0, 2)) == 0:
+        extra["inner_static"] = True
+        first = None
     if knob == "kwarg_other_name":
         # a var-keyword parameter that is not called kwargs, documented the usual way: `**options` in Google / numpydoc
         kwarg, doc_kwarg = draw(st.sampled_from(("options", "extra"))), True
@@ -221,6 +224,9 @@ def render(case):
     if case["kwarg"]:
         parts.append("**" + case["kwarg"])
     sig = ", ".join(parts)
+    if case["kind"] == "class_init" and case.get("inner_static"):
+        # the class is merged with a static factory instead of __init__: no implicit first argument to strip
+        return "class Target(object):\n%s\n\n    @staticmethod\n    def build(%s):\n        pass\n" % (render_doc(case, 4), sig)
     if case["kind"] == "class_init":
         return "class Target(object):\n%s\n\n    def __init__(%s):\n        pass\n" % (render_doc(case, 4), sig)
     if case["kind"] == "method":
@@ -232,7 +238,7 @@ def render(case):
 def python_view(case, src):
     ns = interp.run_source(src)
     if case["kind"] == "class_init":
-        f = ns["Target"].__init__
+        f = ns["Target"].build if case.get("inner_static") else ns["Target"].__init__
     elif case["kind"] == "method":
         f = ns["Holder"].__dict__["target"]
     else:
@@ -303,7 +309,8 @@ def _run_inmemory(case, src, expected, tags, nontrivial):
         try:
             m = importlib.import_module(name)
             obj = getattr(m, "Target" if case["kind"] == "class_init" else "target")
-            got = parse.class_(obj, merge_inner_function="__init__") if case["kind"] == "class_init" else parse.function(obj)
+            got = (parse.class_(obj, merge_inner_function="build" if case.get("inner_static") else "__init__")
+                   if case["kind"] == "class_init" else parse.function(obj))
         except Exception as e:
             return CaseResult([raise_disc(e, "parse-inmemory")], tags, nontrivial, "in-memory parse raised %s" % type(e).__name__)
     finally:
@@ -341,6 +348,8 @@ def run_case(case):
         tags.add("no_param_documented")
     if ndoc >= 2 and case["documented"] != [n for n in names if n in case["documented"]]:
         tags.add("out_of_order")
+    if case.get("inner_static"):
+        tags.add("inner_static")
     if case.get("state_defaults"):
         tags.add("doc_states_default")
     if case["kwarg"] and not case["kwarg"].endswith("kwargs"):
@@ -383,7 +392,7 @@ def run_case(case):
         return _run_inmemory(case, src, expected, tags, nontrivial)
     try:
         if case["kind"] == "class_init":
-            got = parse.class_(tree.body[0], merge_inner_function="__init__")
+            got = parse.class_(tree.body[0], merge_inner_function="build" if case.get("inner_static") else "__init__")
         elif case["kind"] == "method":
             got = parse.function(tree.body[0].body[0])
         else:
